@@ -58,6 +58,14 @@ class Build:
                 'ENTRIES', ''.join('\t"%s": %s,\n' % (e, e) for e in ents)))
             self.overlay[os.path.join(pkdir, 'zz_verif_replay_test.go')] = tst
             self.entries[pk] = ents
+        # read-only accessor files (harness/<pkg>/export.go) are injected for every package, so harnesses of other
+        # packages can observe unexported state; they contain no entries
+        for ef in sorted(glob.glob(os.path.join(VERIF, 'harness', '*', 'export.go'))):
+            pk = os.path.basename(os.path.dirname(ef))
+            if pk in self.pkgs or (pk == 'gameboy' and '.' in self.pkgs):
+                continue
+            pkdir = os.path.join(REPO, 'gameboy') if pk == 'gameboy' else os.path.join(REPO, 'gameboy', pk)
+            self.overlay[os.path.join(pkdir, 'zz_verif_export.go')] = ef
         self.overlay_file = os.path.join(workdir, 'overlay.json')
         json.dump({'Replace': self.overlay}, open(self.overlay_file, 'w'), indent=1)
         self.ir_file = os.path.join(workdir, 'ir.json')
@@ -420,6 +428,13 @@ class Check:
         global _WORLD
         _WORLD = self.world
         opts.setdefault('known', self.known)
+        flt = os.environ.get('VERIF_ONLY_ENTRY')   # debugging aid: run a subset of the jobs (the run is then reported inconclusive)
+        if flt:
+            jobs = [j for j in jobs if re.search(flt, '%s %s' % (j[1], json.dumps(j[2], sort_keys=True)))]
+            self.notes.append('VERIF_ONLY_ENTRY=%s: partial run' % flt)
+            self.partial = True
+            if not jobs:
+                return []
         tasks = [(self.entry_name(pk, e), cfg, opts) for pk, e, cfg in jobs]
         procs = procs or min(len(tasks), int(os.environ.get('VERIF_PROCS', '16')))
         if procs <= 1 or len(tasks) == 1:
@@ -513,6 +528,8 @@ class Check:
                     inconclusive.append('replay of %s: no native panic for %s -> encoding mismatch' % (mf, o['name']))
             if ok:
                 confirmed.append((mf, r, o, rp))
+        if getattr(self, 'partial', False):
+            inconclusive.append('partial run (VERIF_ONLY_ENTRY)')
         status = 'ok'
         if confirmed:
             status = 'violation'
